@@ -21,7 +21,7 @@ Theorem C17_one_marker_left_refuted :
   exists (g : cfg) (sched : list label),
     leftover_markers (run step g (init g) sched) = [2%nat].
 Proof.
-  exists {| nsup := 2; ncons := 2; qcap := 0; rounds := 2; items := fun _ _ => [] |}.
+  exists {| nsup := 2; ncons := 2; qcap := 0; rounds := 2; items := fun _ _ => []; early := fun _ _ => [] |}.
   exists [Sup 0 false; Sup 0 false; Sup 0 false; Sup 1 false; Sup 1 false; Sup 1 false;
           Con 0; Con 0; Con 0; Con 0; Con 0;          (* consumer 0 moved a token, about to test used.full() *)
           Con 1; Con 1; Con 1; Con 1; Con 1;          (* consumer 1 moved the second token *)
@@ -31,6 +31,26 @@ Proof.
   vm_compute. reflexivity.
 Qed.
 Print Assumptions C17_one_marker_left_refuted.
+
+(* "no item or end marker leaking between rounds" is FALSE on the current tree when a supplier that has ended its round puts
+   data of the next round before the round's consumer has finished (the put_end docstring allows it): the item sits in front of
+   the extra end marker, and renew() takes the item where it expects the marker (RuntimeError 'expecting None, got 2'; the item is
+   lost, the stale marker stays). Witness: one supplier, one consumer; put 1, put_end, put 2, consume, renew. Known finding C17-E. *)
+Theorem C17_early_put_swallowed_by_renew_refuted :
+  exists (g : cfg) (sched : list label),
+    let s := run step g (init g) sched in
+    renew_ate s = [2%Z] /\ rp s = RFail /\ q s = [None].
+Proof.
+  exists {| nsup := 1; ncons := 1; qcap := 0; rounds := 2;
+            items := fun r _ => match r with O => [1%Z] | _ => [] end;
+            early := fun r _ => match r with O => [2%Z] | _ => [] end |}.
+  exists [Sup 0 false; Sup 0 false; Sup 0 false; Sup 0 false;       (* put 1; put_end: spare, applied, end marker *)
+          Sup 0 false;                                              (* the supplier already puts 2 (next round) *)
+          Con 0; Con 0; Con 0; Con 0; Con 0; Con 0; Con 0; Con 0; Con 0; Con 0;   (* the consumer gets 1, the marker, posts the extra one *)
+          Ren; Ren].                                                (* renew(): used is full; takes 2 instead of the marker *)
+  vm_compute. repeat split; reflexivity.
+Qed.
+Print Assumptions C17_early_put_swallowed_by_renew_refuted.
 
 (* C17_consumers_finish_todo, C17_round_complete_todo (every item put before put_end is received before the
    consumers of that round finish), C17_stop_unblocks_todo: not proved; they rest on the scheduler
